@@ -369,6 +369,13 @@ func corpus() []Case {
 	cs = append(cs, Case{Npre: 6, Nsamp: 16, Thr: 100, Nmono: 1, Mode: 0, ZT: true, PreMode: 3, PreNpre: 4, PreNsamp: 8, Pre: long[:120], PreCut: []int{50, 70}, Data: long[120:], Ops: []int{45, 45}, Kind: "corpus"})
 	pl := append(flatRamp(60, 30, 300, 3, 1000), flatRamp(60, 50, 300, 3, 1900)...)
 	cs = append(cs, Case{Npre: 4, Nsamp: 10, Thr: 100, Nmono: 1, Mode: 1, PreMode: 3, PreNpre: 6, PreNsamp: 13, Pre: pl[:60], PreCut: []int{60}, Data: append(pl[60:], flatRamp(40, 10, 300, 3, 2800)...), Ops: []int{20, 20, 60}, Kind: "corpus"})
+	// a REFUSED configuration must not take effect: npre = 3 with the kink model on is invalid; before fix 9760bde
+	// ConfigureTrigger installed it anyway and the next block indexed raw[-1] in zeroThreshold
+	dip := flatRamp(36, 3, -7, 1, 41297) // falling edge on index npre = 3: the kink model reads raw[-1]
+	for i := 7; i < len(dip); i++ {
+		dip[i] = 41297
+	}
+	cs = append(cs, Case{Npre: 3, Nsamp: 10, Thr: -1, Nmono: 1, Mode: 2, ZT: true, PreMode: 1, Pre: dip, PreCut: []int{36}, Data: dip, Ops: []int{36}, Kind: "corpus"})
 	// the repository's own examples, scaled to legal lengths: two pulses 3 apart, all three modes, cut between them
 	p := []int{0, 0, 0, 0, 0, 0, 0, 0, 10, 20, 0, 10, 20, 0, 0, 0, 0, 0, 0, 0, 0, 0, 0, 0, 0, 0, 0, 0, 0, 0, 0, 0}
 	for mode := 0; mode < 3; mode++ {
@@ -387,7 +394,7 @@ func corpus() []Case {
 
 func gen(seed uint64, tier string) []interface{} {
 	r := lib.NewRng(seed)
-	n := 200
+	n := 330
 	if tier == "thorough" {
 		n = 2500
 	}
